@@ -4,12 +4,13 @@ import BreezyVerif.Model.C09
 C09 driver.
 
   run <flavour b|g> <ops joined by `,`>
-      -> one block per op joined by `#`: `<ok|err>@<okState T|F>@<listing>@<status>`
+      -> one block per op joined by `#`: `<ok|err>@<okState T|F>@<listing>@<status>@<disk>`
 
 op      = mkfile:<path>:<content> | write:<path>:<content> | chmod:<path>:<T|F> | mkdir:<path> | add:<path>
-        | remove:<path>:<k|f> | rename:<path>:<path> | commit | revert | reopen
+        | remove:<path>:<k|f> | rename:<path>:<path> | commit | revert | revert:b (backups) | reopen
+        | unversion:<path> | mklink:<path>:<target> | revertp:<path>:<n|b> (revert of one file, without / with backups)
 path    = components joined by `/`, `.` = root; content = opaque token (hex, `-` = empty)
-listing = `path|kind|content|exec` sorted, joined by `;`
+listing = `path|kind|content|exec` sorted, joined by `;` (versioned entries); disk = the same for every object below the root
 status  = flavour b: `srcpath|tgtpath|changed_content|versioned|kind0|kind1|exec0|exec1` (iter_changes without ids)
           flavour g: `+|path|kind`, `-|path|kind`, `M|path`        sorted, joined by `;`, `-` = none
 -/
@@ -30,9 +31,14 @@ def parseOp (s : String) : Option Op :=
   | ["add", p] => (parsePath p).map .add
   | ["remove", p, "k"] => (parsePath p).map fun p => .remove p false
   | ["remove", p, "f"] => (parsePath p).map fun p => .remove p true
+  | ["unversion", p] => (parsePath p).map .unversion
   | ["rename", a, b] => do pure (.rename (← parsePath a) (← parsePath b))
   | ["commit"] => some .commit
-  | ["revert"] => some .revert
+  | ["revert"] => some (.revert false)
+  | ["revert", "b"] => some (.revert true)
+  | ["revertp", p, "n"] => (parsePath p).map fun p => .revertPath p false
+  | ["revertp", p, "b"] => (parsePath p).map fun p => .revertPath p true
+  | ["mklink", p, t] => (parsePath p).map fun p => .mklink p t
   | ["reopen"] => some .reopen
   | _ => none
 
@@ -70,7 +76,12 @@ def observe (fl : Flavour) (s : State) (o : Out) : String :=
     | .bzr => joinSemi (sortStrings ((status s).map showChange))
     | .git => joinSemi (sortStrings ((pathStatus s).map showPathChange))
   let out := match o with | .ok => "ok" | .err => "err"
-  s!"{out}@{showBool (okState s)}@{l}@{st}"
+  -- everything on disk below the root (versioned or not)
+  let d := joinSemi (sortStrings (((listing s.disk).filter fun x => !x.1.isEmpty).map fun x => showNode x.1 x.2))
+  -- the invariant: well-formed state; git: the basis is something git can represent (the
+  -- hypotheses of `step_revert_status_empty_git_closed`)
+  let inv := okState s && (fl == .bzr || gitClosed s.basis)
+  s!"{out}@{showBool inv}@{l}@{st}@{d}"
 
 def runObs (fl : Flavour) : State → List Op → List String
   | _, [] => []
